@@ -239,8 +239,14 @@ func (cl *Cluster) Concrete(c string, i int, r AbsReq) []byte {
 					pad, _ = strconv.Atoi(spec[plus+1:])
 					spec = spec[:plus]
 				}
+				// "@j-N": N bytes in front of the hash tag (a key whose tag starts late)
+				pre := 0
+				if minus := strings.IndexByte(spec, '-'); minus >= 0 {
+					pre, _ = strconv.Atoi(spec[minus+1:])
+					spec = spec[:minus]
+				}
 				j, _ := strconv.Atoi(spec)
-				a[x] = key(j)
+				a[x] = strings.Repeat("p", pre) + key(j)
 				if pad > 0 {
 					a[x] += "|" + strings.Repeat("x", pad-1)
 				}
